@@ -6,6 +6,9 @@ hooks = subprocess.run(["git", "-C", "/repo", "log", "--format=%H %s"], capture_
 hook_commits = [l.split()[0] for l in hooks if l.split(" ", 1)[1].startswith("verif:")]
 
 CHECKS = {
+ "C12": dict(engine="locks", design="§5 C12", technique="TLC deadlock-freedom and liveness of Locks.tla (writer-preferring RWMutex, node mutex, re-entrant callbacks) + directed runs of every scenario on the real Broker under a watchdog with lock-mode sensing inside callbacks",
+   text="Model checking of the lock protocol: with node callbacks run outside the Broker lock no reachable state is stuck and every call eventually returns, while holding the write lock across Close or the read lock across Reopen yields the three deadlocks. The same scenario set (every removing/reopening/sending operation x a node re-entering Send from Process, Close or Reopen x the library's gated filter with 0..3 pending groups x a writer parked on the lock, plus a forced gated-Process-vs-removal race) runs on the real Broker; a call that does not return, reproduced, with goroutines parked on Broker locks is a violation.",
+   note="Trusted: goroutine dump; 4 s watchdog on calls whose nodes all return. The lock mode sensed inside callbacks is evidence that the model's hold table matches the code."),
  "C11": dict(engine="gated", design="§5 C11", technique="TLC exhaustive check of Gated.tla (ExactlyOnce, ArrivalOrder, NoMixing, WholeGroup, ...) + spec->code replay of every transition and of simulated walks on a real gated.Filter with probes on replayed copies",
    text="Model checking of the gate as a sequential object over all call sequences to the depth bound (3 ids, flush/non-flush, non-gateable, empty id, clock advance, FlushAll, Close, Broker set/unset, every failure injection); each transition is executed on the real filter and its returned composite, the composites handed to the Broker and what remains gated (FlushAll / per-id flush probes) are compared.",
    note="Sequential histories; the concurrent-senders clause is covered only by the race/crash sensors of C19 until the concurrent trace check is registered. Trusted: harness Gateable payload and Sender."),
@@ -35,6 +38,7 @@ CHECKS = {
    note="Trusted: harness node Reopen counters."),
 }
 ENGINES = [
+ {"name": "locks", "path": "spec/locks + harness/locks + lib/fam_locks.py", "serves_properties": ["C12"], "kind_free_text": "TLA+ model of Broker.lock / node mutex with re-entrant callbacks, TLC deadlock + liveness, watchdog scenarios on the real Broker"},
  {"name": "gated", "path": "spec/gated + harness/gatedrep + lib/fam_gated.py", "serves_properties": ["C11", "C17"], "kind_free_text": "TLA+ model of gated.Filter, TLC exhaustive + simulation, Go replayer"},
  {"name": "dispatch", "path": "spec/dispatch + harness/dispatch + lib/fam_dispatch.py", "serves_properties": ["C01", "C02", "C03"], "kind_free_text": "TLA+ model of graph.process/doProcess, TLC exhaustive + liveness, trace validation of recorded Sends"},
  {"name": "registry", "path": "spec/registry + harness/registry + lib/fam_registry.py", "serves_properties": ["C05", "C06", "C07", "C20"], "kind_free_text": "TLA+ model of the Broker registry, TLC exhaustive + simulation, Go replayer"},
